@@ -20,7 +20,9 @@ Init == i = 0 /\ cnt = [cmp |-> 0, specrej |-> 0, implrej |-> 0, lendiff |-> 0, 
 Next == \/ /\ i < Len(Recs) /\ i' = i + 1
            /\ LET r == Recs[i']  d == TLCEval(Decode(r.b, 32))  c == Class(r, d) IN
               /\ cnt' = [cnt EXCEPT ![c] = @ + 1]
-              /\ IF c = "cmp" THEN
+              \* a decoded length that differs from the architectural one is judged too: fall-through and target are
+              \* architectural notions (offset + length of the instruction those bytes encode)
+              /\ IF c \in {"cmp", "lendiff"} THEN
                     LET v == Clauses(r, d) IN
                     IF v = <<>> THEN TRUE ELSE PrintT("VERDICT " \o ToJson([id |-> r.id, v |-> v, mn |-> d.mn, opc |-> d.opc, os |-> d.os, len |-> d.len]))
                  ELSE TRUE
